@@ -141,6 +141,27 @@ pub fn text_seeds() -> Vec<Vec<u8>> {
     v
 }
 
+/// Seeds for the structure-aware text target: all-zero, a ramp, and two fixed pseudo-random blocks.
+pub fn raw_seeds() -> Vec<Vec<u8>> {
+    let mut x: u32 = 0x9e37_79b9;
+    let mut rnd = |n: usize| -> Vec<u8> {
+        (0..n)
+            .map(|_| {
+                x ^= x << 13;
+                x ^= x >> 17;
+                x ^= x << 5;
+                (x >> 8) as u8
+            })
+            .collect()
+    };
+    vec![vec![0u8; 120], (0u8..=255).collect(), rnd(300), rnd(500)]
+}
+
+/// The structure-aware companion campaign of a text-level property.
+pub fn raw_campaign<'a>(prop: &'a str, runs_total: u64) -> Campaign<'a> {
+    Campaign { target: "raw_struct", prop, runs_total, max_len: 600, seeds: raw_seeds(), dict: false }
+}
+
 /// Convenience: run a campaign and absorb it into a report, recording when the targets are not available.
 pub fn run_into(ctx: &Ctx, rep: &mut crate::engine::Report, c: Campaign) {
     match campaign(ctx, &c) {
